@@ -9,11 +9,13 @@ pub mod c11;
 pub mod c12;
 pub mod c12z;
 pub mod c13;
+pub mod c15;
 pub mod c16;
 pub mod c17;
 pub mod c18;
 pub mod c19;
 pub mod chist;
+pub mod types;
 
 use crate::engine::CheckDef;
 
@@ -30,6 +32,8 @@ pub fn all() -> Vec<(&'static str, fn() -> Vec<CheckDef>)> {
         ("C12", c12::checks),
         ("C13", c13::checks),
         ("C14", chist::c14_checks),
+        ("C15", c15::checks),
+        ("C16", c16::checks),
         ("C17", c17::checks),
         ("C18", c18::checks),
         ("C19", c19::checks),
